@@ -43,8 +43,10 @@ MANIFEST = {
             "tuples of numpy ints; rejected seeds (-1, 2**32, (), negative / oversized elements, float) change nothing; masks "
             "made inside forked DataLoader workers agree per file and with the direct call; apply_mask / EstimateBodyCoilImage "
             "/ CreateSamplingMask obtain the mask of the direct seeded call; exceptions inside the seeded scope; another Cython "
-            "kernel of the package (ssl gaussian_fill) and raw srand/rand() between calls; forced rare kernel seeds (0, 99999) "
-            "in the thorough tier and in the failing-input search.",
+            "kernel of the package (ssl gaussian_fill) and raw srand/rand() between calls; forced rare kernel seeds (0, 99999: "
+            "the recorded randint(1e5) draw replaced through the recording RandomState) for the three kernel users in every tier. "
+            "Generated table kernelSeedPaths + kernel_seed_passed_unchanged: the derived seed reaches the kernel without `or`, "
+            "condition, arithmetic or rebinding, also through helper parameters and hoisted locals.",
     "note": "The oracle reports a failing input only when an observable breaks (a mask / ACS differs across histories, instances, "
             "processes or call sites; a global or an already existing private stream state differs after a call; a process dies "
             "or hangs); whether an executed draw is a listed in-scope table site is compared in the correspondence and decided "
@@ -99,8 +101,8 @@ RULE = ("one case = one history (4-9 ops: calls with other seeds / unseeded / ot
         "other kind of call with another seed) on a reused, fresh, deep-copied or unpickled instance, compared with the same call "
         "alone in another process (different PYTHONHASHSEED); all 14 generators x modes {static, dynamic, multislice} (Kt*: "
         "dynamic); per configuration int, file-name tuple and one rotating edge seed (0, 1, 2**32-1, list, numpy scalar, numpy "
-        "array, 1-tuple, ~100-tuple, bytes tuple, tuple of numpy ints, elements at the limit). thorough / failing-input search: "
-        "also histories with every kernel seed forced to 0 / 99999. non-trivial = the history contains at least one other call "
+        "array, 1-tuple, ~100-tuple, bytes tuple, tuple of numpy ints, elements at the limit). every tier, for the three kernel users: "
+        "also histories with every derived kernel seed (`self.rng.randint(1e5)`) forced to 0 and to 99999. non-trivial = the history contains at least one other call "
         "on the observed instance and one global perturbation, and the mask has an axis >= 2; distinct = distinct (generator, "
         "mode, shape, seed, history) after canonicalisation")
 EXTRA_LEAN_MODULES = ["DirectVerif.Lemmas.C05Driver"]
